@@ -14,7 +14,8 @@ func init() {
 		add(JobConfigScenario{Name: "preexisting2-restart", Schedule: "enabled", MaxJobs: 1, Preexist: 2, Kinds: []string{"scheduled"}, Delete: true, Budget: mc.Budget{Crashes: 1}})
 		add(JobConfigScenario{Name: "enabled-2jobs-fault1-lag1", Schedule: "enabled", MaxJobs: 2, Kinds: []string{"scheduled"}, Delete: true, Budget: mc.Budget{Faults: 1, Lag: 1}})
 		if thorough {
-			add(JobConfigScenario{Name: "enabled-3jobs-delete-lag1", Schedule: "enabled", MaxJobs: 3, Kinds: kinds, Delete: true, Budget: mc.Budget{Lag: 1}})
+			add(JobConfigScenario{Name: "enabled-3jobs-lag1", Schedule: "enabled", MaxJobs: 3, Kinds: []string{"scheduled"}, Delete: false, Budget: mc.Budget{Lag: 1}})
+			add(JobConfigScenario{Name: "enabled-2jobs-delete-lag2", Schedule: "enabled", MaxJobs: 2, Kinds: kinds, Delete: true, Budget: mc.Budget{Lag: 2}})
 			add(JobConfigScenario{Name: "enabled-3jobs-fault2-crash1", Schedule: "enabled", MaxJobs: 3, Kinds: []string{"scheduled"}, Delete: true, Budget: mc.Budget{Faults: 2, Crashes: 1}})
 			add(JobConfigScenario{Name: "enabled-4jobs", Schedule: "enabled", MaxJobs: 4, Kinds: []string{"scheduled"}, Delete: true})
 		}
